@@ -5,6 +5,8 @@ Usage: confirm_seeds.py [--src DIR] [--wave2] [--no-check] [--tier quick|thoroug
   --src DIR   where the sub-agents wrote (default /tmp/seed; wave 2: /tmp/seed2)
   --wave2     archive a/b as <ID>-c/<ID>-d (second, independent wave of sub-agents)
   --no-check  only steps 1-3 (scratch worktree), do not touch /repo
+  --letters xy  archive a/b as <ID>-x/<ID>-y (later waves: ef, gh, ...)
+  --eval      step 4 with tools/eval_patch.sh (patched scratch copy of the repository; /repo untouched)
 
 For each <src>/<ID>/<x>/ (patch.diff, demo_test.go, meta.json written by an independent
 sub-agent from the property text only):
@@ -28,6 +30,7 @@ def sh(cmd, cwd=None, timeout=1800):
 def main():
     args = sys.argv[1:]
     src, wave2, nocheck, tier = '/tmp/seed', False, False, 'quick'
+    letters, use_eval = None, False
     only = []
     while args:
         a = args.pop(0)
@@ -35,6 +38,8 @@ def main():
         elif a == '--wave2': wave2 = True
         elif a == '--no-check': nocheck = True
         elif a == '--tier': tier = args.pop(0)
+        elif a == '--letters': letters = args.pop(0)
+        elif a == '--eval': use_eval = True
         else: only.append(a)
     respath = '/verif/seeded/RESULTS.json'
     prev = {}
@@ -49,6 +54,8 @@ def main():
         pid, x = d.split('/')[-2], d.split('/')[-1]
         if wave2:
             x = {'a': 'c', 'b': 'd'}[x]
+        if letters:
+            x = {'a': letters[0], 'b': letters[1]}[x]
         name = f'{pid}-{x}'
         if only and name not in only and pid not in only:
             continue
@@ -70,6 +77,7 @@ def main():
         rc, out = sh('go build -tags verif ./... && go test -vet=off -count=1 ./gameboy/cpu/... ./gameboy/timer/...', cwd=WT)
         rec['builds_and_existing_tests_pass'] = rc == 0
         demo_dest, demo_cmd = meta.get('demo_dest'), meta.get('demo_cmd')
+        demo_cmd = demo_cmd.replace(f'/tmp/wt/{pid}', WT)  # the sub-agent's own worktree path
         shutil.copy(f'{d}/demo_test.go', f'{WT}/{demo_dest}')
         rc1, o1 = sh(demo_cmd, cwd=WT)
         rec['demo_fails_with_change'] = rc1 != 0
@@ -84,7 +92,8 @@ def main():
             lines = []
             rec['detected_by_' + tier] = None
         else:
-            rc3, o3 = sh(f'/verif/tools/try_patch.sh {patch} {pid} {tier}', cwd='/verif', timeout=4*3600)
+            tool = 'eval_patch.sh' if use_eval else 'try_patch.sh'
+            rc3, o3 = sh(f'/verif/tools/{tool} {patch} {pid} {tier}', cwd='/verif', timeout=4*3600)
             lines = [l for l in o3.splitlines() if l.startswith(('VIOLATION', 'violation', 'HARNESS', 'done', 'PATCH'))]
             rec['check_cmd'] = f'./check {pid} {tier} (with the patch applied to /repo, then reverted)'
             rec['detected_by_' + tier] = any(l.startswith('VIOLATION') for l in lines)
